@@ -49,6 +49,9 @@ def jobs(tier, seed):
         for dt in ('int32', 'uint8'):
             out.append({'name': 'astar-3x3-c8-%s-%d%d-%d%d' % (dt, s_[0], s_[1], g_[0], g_[1]), 'kind': 'astar', 'shape': [3, 3], 'start': list(s_), 'goal': list(g_),
                         'conn': 8, 'snap': [False, False], 'barrier': True, 'dtype': dt})
+    for (s_, g_, snap) in (((1, 3), (0, 0), [True, False]), ((2, 0), (1, 3), [False, True]), ((2, 3), (0, 1), [True, True])):
+        out.append({'name': 'astar-3x4-snap%d%d-%d%d-%d%d' % (snap[0], snap[1], s_[0], s_[1], g_[0], g_[1]), 'kind': 'astar', 'shape': [3, 4], 'start': list(s_), 'goal': list(g_),
+                    'conn': 8, 'snap': snap, 'barrier': False})
     out.append({'name': 'astar-2x3-lat-lon-dims', 'kind': 'astar', 'shape': [2, 3], 'start': [1, 0], 'goal': [0, 2], 'conn': 8, 'snap': [False, True], 'barrier': False,
                 'dims': ['lat', 'lon']})
     # barriers + snapping on a smaller grid
